@@ -99,6 +99,9 @@ class Sim:
         self.cur_node = None
         self.requeue = cfg["requeue"]
         self.hooklog = []
+        self.ctl_events = {}
+        self.stepno = 0
+        self.crash_info = {}
         sim = self
         mode = cfg["mode"]
 
@@ -220,6 +223,7 @@ class Sim:
                 [] if self.result is None else self.result]
 
     def step(self, label):
+        self.stepno += 1
         if self.result is not None:
             return ["disabled"]
         self.outs = []
@@ -272,6 +276,8 @@ class Sim:
                 node = ev[1].get("node")
                 self.cur_node = int(node.gateway.id[2:]) if node is not None else None
                 self.cur_index = None
+                extra = ev[1].get("item_index", ev[1].get("indices"))
+                self.ctl_events[self.stepno - 1] = [ev[0], self.cur_node, list(extra) if isinstance(extra, (list, tuple)) else extra]
                 if ev[0] in ("logstart", "logfinish"):
                     self.cur_index = self.workers[self.cur_node].ids.index(ev[1]["nodeid"]) \
                         if self.workers[self.cur_node].ids.count(ev[1]["nodeid"]) == 1 else ev[1].get("_idx")
@@ -300,6 +306,20 @@ class Sim:
         return name if name in EXC_NAMES else "Exception"
 
     def after_crash(self, n, w):
+        info = dict(w.crash_state or {})
+        if info.get("running") is None and info.get("pending_first") is None:
+            # commands still in flight to the worker when it died
+            for obj in self.down[n]:
+                if obj[0] == "shutdown":
+                    break
+                if obj[0] == "runtests" and obj[1]["indices"]:
+                    info["pending_first"] = int(obj[1]["indices"][0])
+                    break
+                if obj[0] == "runtests_all" and w.ids:
+                    info["pending_first"] = 0
+                    break
+        info["step"] = self.stepno - 1
+        self.crash_info[n] = info
         self.down[n].clear()
 
     def collect_events(self, n, w):
